@@ -1262,7 +1262,13 @@ func c13ByteLevel(c *ctx, rng *core.Rand, shards []*core.Session) {
 		}
 		b := append([]byte(nil), src...)
 		hostile := false
-		if rng.Intn(5) == 0 {
+		if i%300 == 11 {
+			// many merge paths, small result: parsing must stay fast
+			layers := 18 + rng.Intn(6)
+			b = []byte(stackedDiamonds(layers) + fmt.Sprintf("steps:\n  - command: x\n    agents: {<<: [*l%da, *l%db]}\n", layers, layers))
+			hostile = true
+			c.res.Hist("bytes.stacked-diamonds")
+		} else if rng.Intn(5) == 0 {
 			if hb := injectHostileAnchors(rng, src); hb != nil {
 				b, hostile = hb, true
 				c.res.Hist("bytes.hostile-anchors")
